@@ -14,6 +14,7 @@ EXPLANATION = (
     "and 64/32-byte forms; every CombinedKey / CombinedPublicKey method delegates to the same method of the matching variant with unchanged arguments, its lookup order "
     "is secp256k1 then ed25519; single-scheme impls read only their own constant; the generic decoder touches K only through enr_to_public, verify_v4 and "
     "encode_uncompressed. Not decided: equality of what k256 and libsecp256k1 accept/produce (hybrid/uncompressed keys, error behaviour) - two foreign libraries, runtime behaviour."
+    " Re-uses C01 NOLAUNDER (no back-end normalises or re-parses signatures, so all accept the same signature bytes)."
 )
 TRUSTED = ["k256 and libsecp256k1 implement the same SEC1 parsing for 33-byte compressed keys and the same ECDSA verification"]
 ASSUMPTIONS = ["public keys are restricted to the 33-byte compressed form or invalid encodings (as the property says)"]
@@ -131,9 +132,10 @@ def sign_role(ctx, f, an, bn):
         if not (es.k == "agg" and es.a[0].endswith("Result::Ok")):
             return False, "returns %s" % short(es, 120)
         v = strip(es.a[1]["0"])
-        if not (v.k == "call" and v.a[0].name == "to_vec" and v.a[1]):
+        import shapes
+        inner = shapes.bytes_value(an, es.a[1]["0"])
+        if inner is None:
             return False, "signature bytes are %s" % short(v, 120)
-        inner = strip(v.a[1][0])
         if bn == "k256":
             sig = ok_payload(inner)
             sig = strip(sig) if sig is not None else inner
@@ -196,3 +198,14 @@ def generic_decoder_rule(ctx, report):
     report.check("GENERIC", "trait-surface", not bad and n >= 10,
                  "record/builder code reaches the key type only through the EnrKey/EnrPublicKey methods (%d call sites)" % n,
                  "record code calls %s on the generic key type" % bad, config=cfg)
+
+
+_own_run = run
+
+
+def run(ctx, report):
+    _own_run(ctx, report)
+    from common import Only
+    from rules import c01
+    c01.run(ctx, Only(report, {"NOLAUNDER": "NOLAUNDER"}))
+
